@@ -31,14 +31,14 @@ def build_for(repo):
         shutil.copyfile(os.path.join(repo, "Cargo.lock"), os.path.join(d, "Cargo.lock"))
     except OSError:
         pass
-    env = dict(os.environ, CARGO_NET_OFFLINE="true", CARGO_TARGET_DIR=os.path.join(RDIR, "target"))
+    # a scratch tree gets its own target directory (inside the scratch tree, removed with it): several scratch trees may be
+    # checked concurrently
+    tdir = os.path.join(d, "target")
+    env = dict(os.environ, CARGO_NET_OFFLINE="true", CARGO_TARGET_DIR=tdir)
     r = subprocess.run(["cargo", "build", "--offline"], cwd=d, env=env, stdout=subprocess.PIPE, stderr=subprocess.PIPE, text=True)
     if r.returncode != 0:
         return None, r.stderr[-1500:]
-    exe = os.path.join(d, "fb-replay")
-    shutil.copyfile(os.path.join(RDIR, "target", "debug", "fb-replay"), exe)
-    os.chmod(exe, 0o755)
-    return exe, None
+    return os.path.join(tdir, "debug", "fb-replay"), None
 
 
 def run(pid, seed, iters, known=False, timeout=240):
@@ -65,6 +65,36 @@ def run(pid, seed, iters, known=False, timeout=240):
         return {"property": pid, "scenario": "the real crate crashed while replaying random histories (exit status %d; address space capped at 3 GiB)" % r.returncode,
                 "history": [], "observed": (r.stderr or "")[-600:] or "killed / aborted without message (memory exhaustion)"}, " ".join(cmd)
     return None, " ".join(cmd)
+
+
+def tree_key():
+    import hashlib
+    h = hashlib.sha256()
+    for root in (os.path.join(vx.REPO, "src"), os.path.join(RDIR, "src")):
+        for dp, _, fns in sorted(os.walk(root)):
+            for fn in sorted(fns):
+                h.update(fn.encode())
+                h.update(open(os.path.join(dp, fn), "rb").read())
+    return h.hexdigest()[:20]
+
+
+def search_cached(pid, seed):
+    """search() memoised per (source tree, replay driver, property, seed): the cross-property triage of driver.py asks for
+    the same searches from several checks of one tree."""
+    d = os.path.join(vx.VERIF, "build", "replay-cache")
+    os.makedirs(d, exist_ok=True)
+    path = os.path.join(d, "%s-%s-%s.json" % (tree_key(), pid, seed or 1))
+    try:
+        doc = json.load(open(path))
+        return doc["ok"], doc["found"], doc["cmd"]
+    except (OSError, ValueError, KeyError):
+        pass
+    ok, found, cmd = search(pid, None, None, seed, None)
+    if not (isinstance(cmd, str) and (cmd.startswith("replay driver does not build") or cmd == "timeout")):
+        tmp = path + ".%d" % os.getpid()
+        json.dump({"ok": ok, "found": found, "cmd": cmd}, open(tmp, "w"))
+        os.replace(tmp, path)
+    return ok, found, cmd
 
 
 def search(pid, label, failure, seed, plan):
